@@ -45,6 +45,7 @@ type scenario struct {
 	keep    bool     // route.KeepAlive
 	rtsp    bool     // the requester is a real RTSP session (DESCRIBE over a net.Pipe) instead of a direct media.GetOrCreate call
 	builtin bool     // run under the built-in NetTimeout instead of the shortened one (thorough tier / search / replay)
+	strict  bool     // the camera behaves per RFC 2326: it insists on the session id of its SETUP answer on every later request (454 otherwise) and challenges with a fresh nonce
 }
 
 func (s *scenario) line() string {
@@ -58,6 +59,9 @@ func (s *scenario) line() string {
 	if s.builtin {
 		l += " builtin=1"
 	}
+	if s.strict {
+		l += " strict=1"
+	}
 	return l
 }
 
@@ -68,7 +72,7 @@ func parseScenario(kv map[string]string) *scenario {
 		}
 		return strings.Split(x, ",")
 	}
-	return &scenario{user: kv["user"] == "1", listen: kv["listen"] == "1", urlPath: kv["urlpath"] == "1", keep: kv["keep"] == "1", rtsp: kv["rtsp"] == "1", sdp: kv["sdp"], script: sp(kv["script"]), play: sp(kv["play"]), builtin: kv["builtin"] == "1"}
+	return &scenario{user: kv["user"] == "1", listen: kv["listen"] == "1", urlPath: kv["urlpath"] == "1", keep: kv["keep"] == "1", rtsp: kv["rtsp"] == "1", sdp: kv["sdp"], script: sp(kv["script"]), play: sp(kv["play"]), builtin: kv["builtin"] == "1", strict: kv["strict"] == "1"}
 }
 
 const sdpHead = "v=0\r\no=- 0 0 IN IP4 127.0.0.1\r\ns=cam\r\nc=IN IP4 127.0.0.1\r\nt=0 0\r\n"
@@ -104,6 +108,7 @@ func sdpBody(kind, base string) string {
 type observation struct {
 	out       string // stream | nil | hang | panic | infra
 	reqs      []string
+	resps     []string // strict camera only: the answers it actually gave to reqs (454 where the session id was missing)
 	dialled   bool
 	closed    bool // the client closed its connection (after a failed Open, or after the play phase ended)
 	reg       bool // the stream appeared in the registry under the requested path
@@ -265,6 +270,7 @@ func runScenario(s *scenario, path string) *observation {
 			o.notes = append(o.notes, "listen: "+err.Error())
 			return o
 		}
+		cam.strict = s.strict
 		host = cam.addr()
 		defer cam.close()
 	} else {
@@ -365,6 +371,13 @@ func runScenario(s *scenario, path string) *observation {
 		cc.mu.Unlock()
 		o.extra = 0
 		o.reqs = nil
+		defer func() {
+			if s.strict {
+				if rs := cc.responses(); len(rs) >= len(o.reqs) {
+					o.resps = rs[:len(o.reqs)]
+				}
+			}
+		}()
 		for i, r := range cc.requests() {
 			if playedAt > 0 && i >= playedAt { // after PLAY: only keep-alive OPTIONS are expected
 				o.extra++
@@ -940,6 +953,69 @@ func systematic() []*scenario {
 	return out
 }
 
+// rfcScript: a camera that accepts the route's credentials and behaves per RFC 2326 — every step answered with
+// success, the session id handed out from the first SETUP on — with the challenge chal in front of the steps
+// that at names (step: 0 OPTIONS, 1 DESCRIBE, 2.. SETUP per track, last PLAY)
+func rfcScript(nsteps int, chal string, at func(step int) bool) []string {
+	var sc []string
+	for i := 0; i < nsteps; i++ {
+		if at(i) {
+			sc = append(sc, chal)
+		}
+		if i >= 2 {
+			sc = append(sc, "ok+s")
+		} else {
+			sc = append(sc, "ok")
+		}
+	}
+	return sc
+}
+
+// strictSystematic: the challenge (Digest with a fresh nonce, Basic) at every step of the handshake — one step at
+// a time, and at all of them — against a camera that insists on its session id (454 otherwise), for one and two tracks
+func strictSystematic() []*scenario {
+	var out []*scenario
+	for _, chal := range []string{"u-dg", "u-bg"} {
+		for _, sdp := range []string{"v", "va", "a", "absctl"} {
+			n := 3 + tracksOf(sdp)
+			for step := 0; step <= n; step++ { // step == n: at every step
+				st := step
+				sc := rfcScript(n, chal, func(i int) bool { return st == n || i == st })
+				play := []string{"p0", "eof"}
+				if step == n {
+					play = []string{"p0", "ka", "p1", "stop"}
+				}
+				out = append(out, &scenario{user: true, listen: true, urlPath: true, sdp: sdp, script: sc, play: play, strict: true, keep: step%2 == 0})
+			}
+		}
+	}
+	return out
+}
+
+// genStrict: the same class at random: challenges of either scheme in front of any subset of the steps
+func genStrict(r *Rng) *scenario {
+	kinds := []string{"v", "v", "va", "a", "av", "absctl"}
+	s := &scenario{user: true, listen: true, urlPath: !r.Chance(10), keep: r.Chance(50), strict: true, sdp: kinds[r.Intn(len(kinds))]}
+	n := 3 + tracksOf(s.sdp)
+	for i := 0; i < n; i++ {
+		if r.Chance(40) {
+			if r.Chance(50) {
+				s.script = append(s.script, "u-dg")
+			} else {
+				s.script = append(s.script, "u-bg")
+			}
+		}
+		if i >= 2 {
+			s.script = append(s.script, "ok+s")
+		} else {
+			s.script = append(s.script, "ok")
+		}
+	}
+	s.play = genPlay(r)
+	s.rtsp = r.Chance(12)
+	return s
+}
+
 func classOf(verdict string) string {
 	if i := strings.Index(verdict, ":"); i >= 0 {
 		return verdict[i+1:]
@@ -985,6 +1061,9 @@ func obsLine(s *scenario, o *observation) string {
 	ob := o.String()
 	if strings.HasPrefix(o.out, "status-") { // judged by the harness: a failed pull must be answered 404
 		ob = strings.Replace(ob, "out="+o.out, "out=nil", 1)
+	}
+	if s.strict && len(o.resps) > 0 {
+		ob += " resps=" + strings.Join(o.resps, ",")
 	}
 	return "c20 pull " + s.line() + " | " + ob + " leak=" + leak
 }
@@ -1107,6 +1186,11 @@ func runC20(c *Ctx) {
 		scs = append(scs, systematic()...)
 		for i, n := 0, c.Budget(600, 6000); i < n; i++ {
 			scs = append(scs, genScenario(c.Rng))
+		}
+		// cameras that behave per RFC 2326 (session id required after SETUP, fresh nonces), challenged at every step
+		scs = append(scs, strictSystematic()...)
+		for i, n := 0, c.Budget(24, 600); i < n; i++ {
+			scs = append(scs, genStrict(c.Rng))
 		}
 	}
 	if (c.Thorough() || c.Search) && c.Replay == "" {
@@ -1311,6 +1395,14 @@ func runC20(c *Ctx) {
 		c.Count("sdp-" + s.sdp)
 		if s.rtsp {
 			c.Count("requester-rtsp-session")
+		}
+		if s.strict {
+			c.Count("camera-insists-on-session-id")
+			for k, t := range s.script {
+				if strings.HasPrefix(t, "u-") && k+1 < len(s.script) {
+					c.Count("strict-challenge-then-" + s.script[k+1])
+				}
+			}
 		}
 		if !o.dialled {
 			c.Count("not-dialled")
